@@ -223,4 +223,46 @@ def runStages : Rat → List Particle → List StageIn → Option (List (List Pa
       | none => none
       | some tr => some (ps :: tr)
 
+/-! ## the whole `while beta < 1` loop: exponents chosen by the bisection -/
+
+/-- oracle given by a finite table with keys matched up to `δ` (the harness's answers are keyed by
+the exponents of a per-stage replay, which differ from the exponents of the whole-run replay by
+binary64 rounding of the previous exponent) -/
+def tableEssNear (δ : Rat) (tbl : List (Rat × Ans)) (b : Rat) : Ans :=
+  match tbl.find? (fun p => decide (p.1 - b ≤ δ ∧ b - p.1 ≤ δ)) with
+  | some p => p.2
+  | none => .need
+
+/-- what one pass of `while beta < 1` consumes: the ESS oracle of the stage's log-likelihoods, the
+resampling indices, the MH streams -/
+structure StageEnv where
+  ess : Rat → Ans
+  ids : List Nat
+  moves : List Move
+
+inductive RunRes where
+  | need (β : Rat)
+  | raise (e : Err)
+  /-- the recorded `(beta, Sm)` of every stage; `finished` = the loop condition `beta < 1` became false
+  (then the last entry is the terminal `Stage(beta=1.0, Sm)`), otherwise the stage inputs ran out -/
+  | ok (trace : List (Rat × List Particle)) (finished : Bool)
+
+/-- `run_tmcmc_updated`: `beta`, `ESS` start at `β`, `prev`; every pass computes the new exponent with
+`computeBeta`, re-tempers, resamples, mutates and records -/
+def runLoop (c : Consts) : List StageEnv → Rat → Rat → List Particle → RunRes
+  | [], β, _, ps => if β < 1 then .ok [] false else .ok [(1, ps)] true
+  | e :: es, β, prev, ps =>
+    if β < 1 then
+      match computeBeta c e.ess β prev with
+      | .need b => .need b
+      | .raise err => .raise err
+      | .done b' ess' _ =>
+        match stage β b' ps e.ids e.moves with
+        | none => .raise .Index
+        | some (_, nxt) =>
+          match runLoop c es b' ess' (nxt.map (·.1)) with
+          | .ok tr fin => .ok ((b', ps) :: tr) fin
+          | r => r
+    else .ok [(1, ps)] true
+
 end Pun.Tmcmc
